@@ -104,6 +104,28 @@ def c12_f1_eager_when_no_label(case, detail):
 PREDICATES.update({
     "C12-F1": c12_f1_eager_when_no_label,
 })
+# ---- C03 ---------------------------------------------------------------------------------------------------------------
+
+
+def c03_f1_argmax_nan_group(case, detail):
+    # NaN-propagating argmax / argmin of a group that contains NaN (outside C01's value domain: flox returns the fill /
+    # an arbitrary position there): on chunked input the position additionally depends on the tree shape
+    import ast
+    import math
+
+    if case.get("func") not in ("argmax", "argmin") or not detail.startswith("value depends on split_every/scheduler at labels "):
+        return False
+    try:
+        labs = ast.literal_eval(detail[len("value depends on split_every/scheduler at labels "):].split("]: ", 1)[0] + "]")
+    except Exception:  # noqa
+        return False
+    def has_nan(g):
+        return any(isinstance(v, float) and math.isnan(v) or v == "nan"
+                   for v, l in zip(case["vals"], case["labels"]) if l is not None and float(l) == float(g))
+    return bool(labs) and all(has_nan(g) for g in labs)
+
+
+PREDICATES["C03-F1"] = c03_f1_argmax_nan_group
 # ---- C15 (xarray_reduce vs native xarray groupby) ------------------------------------------------------
 # the harness attaches its classification of the call to the case: case["_cls"] = {gd, t, shortcut, needs_broadcast,
 # per: {var: {passthrough, lacks_some}}, unique_dim, anybin, nan_labels}
